@@ -44,6 +44,21 @@ def field_mismatches(frame, o: bytes):
     return bad
 
 
+def header_mismatches(hdr, o: bytes):
+    """Header accessors of a header object alone (its frame may be gone) vs the octets; None if no parseable header."""
+    h = hdlc_ref.parse_header(o)
+    if h is None:
+        return None
+    bad = []
+    for name, want in (("frame_length", h.frame_length), ("destination_address", h.dest), ("source_address", h.src), ("control", h.control)):
+        got = getattr(hdr, name)
+        if got != want:
+            bad.append((name, got, want))
+    if not _seq_ok(hdr.header_check_sequence, h.hcs):
+        bad.append(("header_check_sequence", hdr.header_check_sequence, h.hcs.hex()))
+    return bad
+
+
 def embed_unstuffed(wire: bytes, frames):
     """Stuffing off: each frame is a substring directly between two flag octets; occurrences strictly
     ordered, non-overlapping (a closing flag may be the next opening flag). Leftmost-greedy matching
